@@ -460,7 +460,7 @@ def nangeomean(
     return torch.nan_to_num(
         torch.exp(
             torch.sum(sanitized, dim, keepdim=keepdim)
-            / torch.sum(sanitized != 0, dim, keepdim=keepdim)
+            / torch.sum(data > 0, dim, keepdim=keepdim)
         ),
         nan=0.0,
     )
